@@ -24,7 +24,7 @@ Ltac shape c := destruct c as [|[[|]|] [|? ?]].
 (* the model equals the specification for every case: collections of any length, any items *)
 Lemma model_is_spec : forall c, model c = spec c.
 Proof.
-  intros [op l r|c|c|c|c|c|c].
+  intros [op l r|c|c|c|c|c|c|c].
   - shape l; shape r; destruct op; reflexivity.
   - shape c; reflexivity.
   - shape c; reflexivity.
@@ -32,6 +32,7 @@ Proof.
   - shape c; reflexivity.
   - shape c; reflexivity.
   - shape c; reflexivity.
+  - reflexivity.
 Qed.
 
 Lemma boolean_op_table op l r :
@@ -96,7 +97,7 @@ Proof. repeat split; shape c; reflexivity. Qed.
 Lemma where_one_no_panic c : where_one c <> Panic.
 Proof. shape c; discriminate. Qed.
 Lemma model_never_panics c : model c <> Panic.
-Proof. rewrite model_is_spec. destruct c as [op l r|c|c|c|c|c|c]; cbn; try (shape c; discriminate).
+Proof. rewrite model_is_spec. destruct c as [op l r|c|c|c|c|c|c|c]; cbn; try (shape c; discriminate).
   shape l; shape r; discriminate. Qed.
 
 Lemma holds_model c : holds c (model c) = true.
